@@ -416,6 +416,7 @@ structure PrepSpec (env : Env) (st st1 : St env.jar.σ) (s : Sent) : Prop where
   method : st1.method = st.method
   data : st1.data = st.data
   jar : st1.jar = st.jar
+  retry : st1.retry = st.retry
 
 theorem prepare_spec {env : Env} {cfg : Cfg} {st st1 : St env.jar.σ} {s : Sent}
     (hinv : Inv st) (h : prepare env cfg st = .ok (st1, s)) : PrepSpec env st st1 s := by
@@ -498,7 +499,7 @@ theorem prepare_spec {env : Env} {cfg : Cfg} {st st1 : St env.jar.σ} {s : Sent}
             sIdx := rfl, sSince := rfl, sOrigin := rfl, sMethod := rfl
             inv := ⟨t0.popFirst HOST, fun x hx => nj0 x (mem_of_mem_popFirst hx), hinv.cookies, hinv.le⟩
             idx := rfl, since := rfl, url := rfl, cookies := rfl, redirects := rfl, history := rfl
-            method := rfl, data := rfl, jar := rfl }
+            method := rfl, data := rfl, jar := rfl, retry := rfl }
 
 end Aio.C17
 
@@ -520,6 +521,7 @@ structure ReactSpec (env : Env) (cfg : Cfg) (st1 st2 : St env.jar.σ) (s : Sent)
   data : st2.data = if toGet r.status s.method then none else some (st1.data.getD emptyBody)
   fresh : st2.consumed = false
   notConsumed : toGet r.status s.method = false → st1.consumed = false
+  retry : st2.retry = st1.retry
   evs : evs = [.release st1.idx, .release st1.idx]
 
 theorem react_spec {env : Env} {cfg : Cfg} {st1 st2 : St env.jar.σ} {s : Sent} {r : Resp} {evs : List Ev}
@@ -566,7 +568,7 @@ theorem react_spec {env : Env} {cfg : Cfg} {st1 st2 : St env.jar.σ} {s : Sent} 
                 · exact hinv.noJar x (mem_dropContentLength h1)
                 · exact hinv.noJar x h1, by simp, by simp⟩
               idx := rfl, streak := Or.inr rfl, redirects := rfl, history := rfl
-              isRedir := hred, bound := hb, target := hloc, method := rfl, data := rfl, fresh := hfresh, notConsumed := hnc, evs := rfl }
+              isRedir := hred, bound := hb, target := hloc, method := rfl, data := rfl, fresh := hfresh, notConsumed := hnc, retry := rfl, evs := rfl }
           · have hc' : (s.url.origin != target.origin) = false := by simpa using hc
             have heq : target.origin = s.url.origin := by
               simp at hc'; exact hc'.symm
@@ -579,7 +581,7 @@ theorem react_spec {env : Env} {cfg : Cfg} {st1 st2 : St env.jar.σ} {s : Sent} 
                 · exact hinv.noJar x (mem_dropContentLength hx)
                 · exact hinv.noJar x hx, hinv.cookies, Nat.le_succ_of_le hinv.le⟩
               idx := rfl, streak := Or.inl ⟨rfl, heq⟩, redirects := rfl, history := rfl
-              isRedir := hred, bound := hb, target := hloc, method := rfl, data := rfl, fresh := hfresh, notConsumed := hnc, evs := rfl }
+              isRedir := hred, bound := hb, target := hloc, method := rfl, data := rfl, fresh := hfresh, notConsumed := hnc, retry := rfl, evs := rfl }
             have hm := hinv.hdrs.mono (Nat.le_succ st1.idx)
             show Tagged st1.since (st1.idx + 1) (if toGet r.status s.method = true then dropContentLength st1.headers else st1.headers)
             split
@@ -1063,5 +1065,319 @@ theorem run_jar {env : Env} {cfg : Cfg} (chain : List Resp) :
         have := ih st2 k' sk rs.inv h
         simp only [List.take_succ_cons, jarAfter]
         rw [this, rs.jar, ps.jar]
+
+end Aio.C17
+
+/-! ## the loop with connection faults (`runF`) -/
+namespace Aio.C17
+open Aio
+
+theorem afterDrop_error {σ : Type} {st1 : St σ} {e : Err} (h : afterDrop st1 = .error e) : e = .disconnected := by
+  unfold afterDrop at h
+  split at h
+  · cases h; rfl
+  · split at h
+    · cases h; rfl
+    · cases h
+
+theorem afterDrop_ok {σ : Type} {st1 st1' : St σ} (h : afterDrop st1 = .ok st1') :
+    st1.retry = true ∧ st1' = { st1 with retry := false } := by
+  unfold afterDrop at h
+  split at h
+  · cases h
+  · next hr =>
+    split at h
+    · cases h
+    · injection h with h; exact ⟨by simpa using hr, h.symm⟩
+
+theorem afterDrop_inv {σ : Type} {st1 st1' : St σ} (hinv : Inv st1) (h : afterDrop st1 = .ok st1') : Inv st1' := by
+  rw [(afterDrop_ok h).2]; exact ⟨hinv.hdrs, hinv.noJar, hinv.cookies, hinv.le⟩
+
+/-- the ways one unfolding of `runF` can go -/
+inductive RunFView (env : Env) (cfg : Cfg) (st : St env.jar.σ) (chain : List Reply) (res : Result) : Prop where
+  | prepErr (e : Err) (hp : prepare env cfg st = .error e)
+      (hres : res = { sent := [], events := [], out := .err e })
+  | pending (st1 : St env.jar.σ) (s : Sent) (hp : prepare env cfg st = .ok (st1, s)) (hc : chain = [])
+      (hres : res = { sent := [s], events := [], out := .pending })
+  | dropErr (st1 : St env.jar.σ) (s : Sent) (rest : List Reply) (e : Err)
+      (hp : prepare env cfg st = .ok (st1, s)) (hc : chain = .drop :: rest) (hd : afterDrop st1 = .error e)
+      (hres : res = { sent := [s], events := [], out := .err e })
+  | dropCont (st1 : St env.jar.σ) (s : Sent) (rest : List Reply) (st1' : St env.jar.σ)
+      (hp : prepare env cfg st = .ok (st1, s)) (hc : chain = .drop :: rest) (hd : afterDrop st1 = .ok st1')
+      (hres : res = { sent := s :: (runF env cfg st1' rest).sent, events := (runF env cfg st1' rest).events,
+                      out := (runF env cfg st1' rest).out })
+  | stop (st1 : St env.jar.σ) (s : Sent) (r : Resp) (rest : List Reply) (out : Outcome) (evs : List Ev)
+      (hp : prepare env cfg st = .ok (st1, s)) (hc : chain = .resp r :: rest)
+      (hr : react env cfg st1 s r = .stop out evs)
+      (hres : res = { sent := [s], events := evs, out := out })
+  | cont (st1 : St env.jar.σ) (s : Sent) (r : Resp) (rest : List Reply) (st2 : St env.jar.σ) (evs : List Ev)
+      (hp : prepare env cfg st = .ok (st1, s)) (hc : chain = .resp r :: rest)
+      (hr : react env cfg st1 s r = .continue st2 evs)
+      (hres : res = { sent := s :: (runF env cfg st2 rest).sent, events := evs ++ (runF env cfg st2 rest).events,
+                      out := (runF env cfg st2 rest).out })
+
+theorem runF_view {env : Env} {cfg : Cfg} (st : St env.jar.σ) (chain : List Reply) :
+    RunFView env cfg st chain (runF env cfg st chain) := by
+  cases hp : prepare env cfg st with
+  | error e =>
+    refine .prepErr e hp ?_
+    unfold runF; rw [hp]
+  | ok pr =>
+    obtain ⟨st1, s⟩ := pr
+    cases chain with
+    | nil =>
+      refine .pending st1 s hp rfl ?_
+      unfold runF; rw [hp]
+    | cons x rest =>
+      cases x with
+      | drop =>
+        cases hd : afterDrop st1 with
+        | error e =>
+          refine .dropErr st1 s rest e hp rfl hd ?_
+          conv => lhs; unfold runF
+          rw [hp]; simp only [hd]
+        | ok st1' =>
+          refine .dropCont st1 s rest st1' hp rfl hd ?_
+          conv => lhs; unfold runF
+          rw [hp]; simp only [hd]
+      | resp r =>
+        cases hr : react env cfg st1 s r with
+        | stop out evs =>
+          refine .stop st1 s r rest out evs hp rfl hr ?_
+          conv => lhs; unfold runF
+          rw [hp]; simp only [hr]
+        | «continue» st2 evs =>
+          refine .cont st1 s r rest st2 evs hp rfl hr ?_
+          conv => lhs; unfold runF
+          rw [hp]; simp only [hr]
+
+end Aio.C17
+
+namespace Aio.C17
+open Aio
+
+/-- without connection faults `runF` is `run` -/
+theorem runF_resp_eq_run {env : Env} {cfg : Cfg} (chain : List Resp) :
+    ∀ (st : St env.jar.σ), runF env cfg st (chain.map Reply.resp) = run env cfg st chain := by
+  induction chain with
+  | nil =>
+    intro st
+    rcases run_view (cfg := cfg) st [] with ⟨e, hp, hres⟩ | ⟨st1, s, hp, hc, hres⟩ | ⟨st1, s, r, rest, out, evs, hp, hc, hr, hres⟩ | ⟨st1, s, r, rest, st2, evs, hp, hc, hr, hres⟩
+    · rw [hres]; simp only [List.map_nil]; unfold runF; rw [hp]
+    · rw [hres]; simp only [List.map_nil]; unfold runF; rw [hp]
+    · cases hc
+    · cases hc
+  | cons r0 rest0 ih =>
+    intro st
+    rcases run_view (cfg := cfg) st (r0 :: rest0) with ⟨e, hp, hres⟩ | ⟨st1, s, hp, hc, hres⟩ | ⟨st1, s, r, rest, out, evs, hp, hc, hr, hres⟩ | ⟨st1, s, r, rest, st2, evs, hp, hc, hr, hres⟩
+    · rw [hres]; unfold runF; rw [hp]
+    · cases hc
+    · injection hc with h1 h2; subst h1; subst h2
+      rw [hres]; simp only [List.map_cons]
+      conv => lhs; unfold runF
+      rw [hp]; simp only [hr]
+    · injection hc with h1 h2; subst h1; subst h2
+      rw [hres]; simp only [List.map_cons]
+      conv => lhs; unfold runF
+      rw [hp]; simp only [hr]
+      rw [ih st2]
+
+/-- requests on the wire under faults: the redirect budget plus the call's single resend -/
+theorem runF_count {env : Env} {cfg : Cfg} (hmax : cfg.maxRedirects ≠ 0) (chain : List Reply) :
+    ∀ (st : St env.jar.σ), Inv st → st.redirects < cfg.maxRedirects →
+      (runF env cfg st chain).sent.length + st.redirects ≤ cfg.maxRedirects + (if st.retry then 1 else 0) := by
+  induction chain with
+  | nil =>
+    intro st hinv hlt
+    rcases runF_view (cfg := cfg) st [] with ⟨e, hp, hres⟩ | ⟨st1, s, hp, hc, hres⟩ | ⟨st1, s, rest, e, hp, hc, hd, hres⟩ | ⟨st1, s, rest, st1', hp, hc, hd, hres⟩ | ⟨st1, s, r, rest, out, evs, hp, hc, hr, hres⟩ | ⟨st1, s, r, rest, st2, evs, hp, hc, hr, hres⟩
+    · rw [hres]; simp; omega
+    · rw [hres]; simp; omega
+    · cases hc
+    · cases hc
+    · cases hc
+    · cases hc
+  | cons x0 rest0 ih =>
+    intro st hinv hlt
+    rcases runF_view (cfg := cfg) st (x0 :: rest0) with ⟨e, hp, hres⟩ | ⟨st1, s, hp, hc, hres⟩ | ⟨st1, s, rest, e, hp, hc, hd, hres⟩ | ⟨st1, s, rest, st1', hp, hc, hd, hres⟩ | ⟨st1, s, r, rest, out, evs, hp, hc, hr, hres⟩ | ⟨st1, s, r, rest, st2, evs, hp, hc, hr, hres⟩
+    · rw [hres]; simp; omega
+    · cases hc
+    · rw [hres]; simp; omega
+    · injection hc with h1 h2; subst h1; subst h2
+      have ps := prepare_spec hinv hp
+      obtain ⟨hr1, hst⟩ := afterDrop_ok hd
+      have hinv' := afterDrop_inv ps.inv hd
+      have hred : st1'.redirects = st.redirects := by rw [hst]; exact ps.redirects
+      have hret : st1'.retry = false := by rw [hst]
+      have := ih st1' hinv' (by rw [hred]; exact hlt)
+      rw [hres, hred, hret] at *
+      have hsr : st.retry = true := by rw [← ps.retry]; exact hr1
+      simp only [List.length_cons, hsr, if_true]
+      simp at this
+      omega
+    · rw [hres]; simp; omega
+    · injection hc with h1 h2; subst h1; subst h2
+      have ps := prepare_spec hinv hp
+      have rs := react_spec ps.inv hr
+      rw [hres]
+      have hb : st2.redirects < cfg.maxRedirects := by
+        rcases rs.bound with hb | hb
+        · exact absurd hb hmax
+        · rw [rs.redirects]; exact hb
+      have := ih st2 rs.inv hb
+      rw [rs.redirects, ps.redirects, rs.retry, ps.retry] at this
+      simp only [List.length_cons]
+      omega
+
+/-- number of `drop` replies among the first `n` replies -/
+def dropsIn (chain : List Reply) (n : Nat) : Nat := ((chain.take n).filter (· == Reply.drop)).length
+
+/-- drops consumed by a run: at most the allowance, plus the one that ends the call -/
+theorem runF_drops {env : Env} {cfg : Cfg} (chain : List Reply) :
+    ∀ (st : St env.jar.σ), Inv st →
+      dropsIn chain (runF env cfg st chain).sent.length ≤
+        (if st.retry then 1 else 0) + (if (runF env cfg st chain).out = .err .disconnected then 1 else 0) := by
+  induction chain with
+  | nil => intro st _; simp [dropsIn]
+  | cons x0 rest0 ih =>
+    intro st hinv
+    rcases runF_view (cfg := cfg) st (x0 :: rest0) with ⟨e, hp, hres⟩ | ⟨st1, s, hp, hc, hres⟩ | ⟨st1, s, rest, e, hp, hc, hd, hres⟩ | ⟨st1, s, rest, st1', hp, hc, hd, hres⟩ | ⟨st1, s, r, rest, out, evs, hp, hc, hr, hres⟩ | ⟨st1, s, r, rest, st2, evs, hp, hc, hr, hres⟩
+    · rw [hres]; simp [dropsIn]
+    · cases hc
+    · injection hc with h1 h2; subst h1; subst h2
+      rw [hres, afterDrop_error hd]; simp [dropsIn]
+    · injection hc with h1 h2; subst h1; subst h2
+      have ps := prepare_spec hinv hp
+      obtain ⟨hr1, hst⟩ := afterDrop_ok hd
+      have hinv' := afterDrop_inv ps.inv hd
+      have hret : st1'.retry = false := by rw [hst]
+      have hsr : st.retry = true := by rw [← ps.retry]; exact hr1
+      have := ih st1' hinv'
+      rw [hret] at this
+      rw [hres]
+      simp only [dropsIn, List.length_cons, List.take_succ_cons, hsr, if_true] at this ⊢
+      simp only [List.filter_cons, beq_self_eq_true, if_true, List.length_cons]
+      simp at this
+      omega
+    · injection hc with h1 h2; subst h1; subst h2
+      rw [hres]; simp [dropsIn]
+    · injection hc with h1 h2; subst h1; subst h2
+      have ps := prepare_spec hinv hp
+      have rs := react_spec ps.inv hr
+      have := ih st2 rs.inv
+      rw [rs.retry, ps.retry] at this
+      rw [hres]
+      simp only [dropsIn, List.length_cons, List.take_succ_cons] at this ⊢
+      have hne : (Reply.resp r == Reply.drop) = false := by
+        rw [beq_eq_false_iff_ne]; intro h; cases h
+      simp only [List.filter_cons, hne, Bool.false_eq_true, if_false]
+      exact this
+
+/-- the trace facts of `run_trace`, under connection faults -/
+theorem runF_trace {env : Env} {cfg : Cfg} (chain : List Reply) :
+    ∀ (st : St env.jar.σ), Inv st →
+      (∀ sk ∈ (runF env cfg st chain).sent, SentOk st sk) ∧ Streaks (runF env cfg st chain).sent := by
+  induction chain with
+  | nil =>
+    intro st hinv
+    rcases runF_view (cfg := cfg) st [] with ⟨e, hp, hres⟩ | ⟨st1, s, hp, hc, hres⟩ | ⟨st1, s, rest, e, hp, hc, hd, hres⟩ | ⟨st1, s, rest, st1', hp, hc, hd, hres⟩ | ⟨st1, s, r, rest, out, evs, hp, hc, hr, hres⟩ | ⟨st1, s, r, rest, st2, evs, hp, hc, hr, hres⟩
+    · rw [hres]; simp [Streaks]
+    · rw [hres]
+      have ps := prepare_spec hinv hp
+      refine ⟨?_, streaks_single s⟩
+      intro sk hk; simp at hk; subst hk; exact sentOk_head hinv ps
+    · cases hc
+    · cases hc
+    · cases hc
+    · cases hc
+  | cons x0 rest0 ih =>
+    intro st hinv
+    have single : ∀ (st1 : St env.jar.σ) (s : Sent), prepare env cfg st = .ok (st1, s) →
+        (∀ sk ∈ [s], SentOk st sk) ∧ Streaks [s] := by
+      intro st1 s hp
+      have ps := prepare_spec hinv hp
+      refine ⟨?_, streaks_single s⟩
+      intro sk hk; simp at hk; subst hk; exact sentOk_head hinv ps
+    -- both continuing cases have the same shape: a successor state `st'` whose run is appended to `s`
+    have step : ∀ (st1 st' : St env.jar.σ) (s : Sent) (rest : List Reply), prepare env cfg st = .ok (st1, s) → Inv st' →
+        st'.idx = st.idx ∨ st'.idx = st.idx + 1 →
+        (st'.idx = st.idx → st'.since = st.since ∧ st'.url.origin = s.url.origin) →
+        (st'.idx = st.idx + 1 → (st'.since = st.since ∧ st'.url.origin = s.url.origin) ∨ st'.since = st.idx + 1) →
+        (∀ sk ∈ (runF env cfg st' rest).sent, SentOk st' sk) → Streaks (runF env cfg st' rest).sent →
+        (∀ sk ∈ s :: (runF env cfg st' rest).sent, SentOk st sk) ∧ Streaks (s :: (runF env cfg st' rest).sent) := by
+      intro st1 st' s rest hp hinv' hidx hsame hnext ihOk ihStreak
+      have ps := prepare_spec hinv hp
+      have hs : SentOk st s := sentOk_head hinv ps
+      have rebase : ∀ sk ∈ (runF env cfg st' rest).sent, SentOk st sk ∧ st.idx ≤ sk.idx ∧
+          ((sk.since = st.since ∧ sk.url.origin = s.url.origin) ∨ st.idx < sk.since) := by
+        intro sk hk
+        obtain ⟨a, b, c, d, e⟩ := ihOk sk hk
+        have hle : st.idx ≤ sk.idx := by omega
+        have hcase : (sk.since = st.since ∧ sk.url.origin = s.url.origin) ∨ st.idx < sk.since := by
+          rcases e with ⟨e1, e2⟩ | e
+          · rcases hidx with hi | hi
+            · obtain ⟨f1, f2⟩ := hsame hi
+              left; exact ⟨by rw [e1, f1], by rw [e2, f2]⟩
+            · rcases hnext hi with ⟨f1, f2⟩ | f
+              · left; exact ⟨by rw [e1, f1], by rw [e2, f2]⟩
+              · right; rw [e1, f]; omega
+          · right; omega
+        refine ⟨⟨a, b, hle, d, ?_⟩, hle, hcase⟩
+        rcases hcase with ⟨h1, h2⟩ | h1
+        · left; exact ⟨h1, by rw [h2, ps.sOrigin]⟩
+        · right; exact h1
+      refine ⟨?_, ?_⟩
+      · intro sk hk
+        rcases List.mem_cons.mp hk with h1 | h1
+        · subst h1; exact hs
+        · exact (rebase sk h1).1
+      · intro sj hj sk hk hle1 hle2
+        rcases List.mem_cons.mp hj with hj' | hj' <;> rcases List.mem_cons.mp hk with hk' | hk'
+        · subst hj'; subst hk'; rfl
+        · subst hj'
+          obtain ⟨_, _, hcase⟩ := rebase sk hk'
+          rcases hcase with ⟨_, h2⟩ | h1
+          · exact h2.symm
+          · rw [ps.sIdx] at hle1; omega
+        · subst hk'
+          obtain ⟨_, hge, hcase⟩ := rebase sj hj'
+          rcases hcase with ⟨_, h2⟩ | h1
+          · exact h2
+          · -- sj.since > st.idx but sj.idx ≤ sk.idx = st.idx, impossible as sj.since ≤ sj.idx
+            obtain ⟨⟨_, _, _, hd, _⟩, _, _⟩ := rebase sj hj'
+            rw [ps.sIdx] at hle2; omega
+        · exact ihStreak sj hj' sk hk' hle1 hle2
+    rcases runF_view (cfg := cfg) st (x0 :: rest0) with ⟨e, hp, hres⟩ | ⟨st1, s, hp, hc, hres⟩ | ⟨st1, s, rest, e, hp, hc, hd, hres⟩ | ⟨st1, s, rest, st1', hp, hc, hd, hres⟩ | ⟨st1, s, r, rest, out, evs, hp, hc, hr, hres⟩ | ⟨st1, s, r, rest, st2, evs, hp, hc, hr, hres⟩
+    · rw [hres]; simp [Streaks]
+    · cases hc
+    · rw [hres]; exact single st1 s hp
+    · injection hc with h1 h2; subst h1; subst h2
+      have ps := prepare_spec hinv hp
+      obtain ⟨_, hst⟩ := afterDrop_ok hd
+      have hinv' := afterDrop_inv ps.inv hd
+      obtain ⟨ihOk, ihStreak⟩ := ih st1' hinv'
+      rw [hres]
+      have hi : st1'.idx = st.idx := by rw [hst]; exact ps.idx
+      refine step st1 st1' s rest0 hp hinv' (Or.inl hi) ?_ ?_ ihOk ihStreak
+      · intro _; rw [hst]; exact ⟨ps.since, by rw [← ps.url]⟩
+      · intro h; omega
+    · rw [hres]; exact single st1 s hp
+    · injection hc with h1 h2; subst h1; subst h2
+      have ps := prepare_spec hinv hp
+      have rs := react_spec ps.inv hr
+      obtain ⟨ihOk, ihStreak⟩ := ih st2 rs.inv
+      rw [hres]
+      have hi : st2.idx = st.idx + 1 := by rw [rs.idx, ps.idx]
+      refine step st1 st2 s rest0 hp rs.inv (Or.inr hi) ?_ ?_ ihOk ihStreak
+      · intro h; omega
+      · intro _
+        rcases rs.streak with ⟨f1, f2⟩ | f
+        · left; exact ⟨by rw [f1, ps.since], f2⟩
+        · right; rw [f, ps.idx]
+
+theorem initF_inv (env : Env) (cfg : Cfg) (url : Url) (params : Option Str) (method : Str) (defaults headers : List (Str × Str))
+    (cookies : Option (List (Str × Str))) (data : Option Body) (jar0 : env.jar.σ) :
+    Inv (initF env cfg url params method defaults headers cookies data jar0) := by
+  have h := init_inv env url params method defaults headers cookies data jar0
+  exact ⟨h.hdrs, h.noJar, h.cookies, h.le⟩
 
 end Aio.C17
